@@ -22,25 +22,28 @@ Proof.
     Ltac Zify.zify_post_hook ::= Z.div_mod_to_equations. lia. }
   assert (Hsame : isSameAsPrevious (map snd (q' ++ [pe])) (snd e) = false).
   { unfold isSameAsPrevious. rewrite Hnth, Hlen, Hne. rewrite !andb_false_r. reflexivity. }
-  assert (Hd : hasDiscontinuity (map snd (q' ++ [pe])) (snd e) = false).
-  { unfold hasDiscontinuity. rewrite Hnth, Hlen. unfold no_disc_flag in Hdi. rewrite Hdi.
+  assert (Hcd : hasCounterDiscontinuity (map snd (q' ++ [pe])) (snd e) = false).
+  { unfold hasCounterDiscontinuity. rewrite Hnth, Hlen.
     unfold has_payload in Hpay. rewrite Hpay. cbn [orb andb negb]. rewrite orb_false_r.
     apply negb_false_iff, Z.eqb_eq. unfold cc_of in *. rewrite Hcc, Hcc', Hpos.
     assert (0 <= (c0 + fst pe) mod 16 < 16) by (apply Z.mod_pos_bound; lia).
     rewrite (Z.mod_small ((c0 + fst pe) mod 16 + 1) 256) by lia.
     rewrite Zplus_mod_idemp_l. f_equal. lia. }
+  assert (Hd : resets (map snd (q' ++ [pe])) (snd e) = false).
+  { unfold resets, hasDiscontinuity. rewrite Hcd. rewrite orb_false_r.
+    destruct Hdi as [Hdi|Hp].
+    - unfold no_disc_flag in Hdi. rewrite Hdi. reflexivity.
+    - rewrite Hp. cbn [negb]. apply andb_false_r. }
   rewrite Hsame, Hd. destruct (pusi (snd e)); reflexivity.
 Qed.
 
 Lemma acc_add_a_first pm x e :
-  (Z.eqb x C_PIDPAT || pm_mem pm x) = false -> no_disc_flag (snd e) ->
+  (Z.eqb x C_PIDPAT || pm_mem pm x) = false ->
   acc_add_a pm x [] e = ([e], []).
 Proof.
-  intros Hn Hdi. unfold acc_add_a. rewrite Hn. cbn [andb map].
+  intros Hn. unfold acc_add_a. rewrite Hn. cbn [andb map].
   assert (isSameAsPrevious [] (snd e) = false) as -> by reflexivity.
-  assert (hasDiscontinuity [] (snd e) = false) as ->.
-  { unfold hasDiscontinuity. unfold no_disc_flag in Hdi. rewrite Hdi. reflexivity. }
-  destruct (pusi (snd e)); reflexivity.
+  destruct (resets [] (snd e)); destruct (pusi (snd e)); reflexivity.
 Qed.
 
 (* a unit: a payload_unit_start packet followed by packets without the indicator *)
@@ -88,8 +91,7 @@ Proof.
   (* the first packet of the unit flushes the previous one *)
   assert (Hstep : acc_add_a pm x prev h = ([h], prev)).
   { destruct Hprev as [->|[q' [pe ->]]].
-    - rewrite acc_add_a_first; [reflexivity|exact Hn|].
-      cbn [app concat] in Hall. inversion Hall as [|? ? [_ [_ Hd]] _]. exact Hd.
+    - rewrite acc_add_a_first; [reflexivity|exact Hn].
     - rewrite (acc_add_a_next pm x c0 q' pe h Hn).
       + rewrite Hh. reflexivity.
       + rewrite Forall_app in Hall. destruct Hall as [_ Hall]. cbn [concat app] in Hall. inversion Hall; assumption.
